@@ -82,7 +82,7 @@ def gen_ops(rng, nops):
         elif r < 0.73:
             ops.append({"op": "copy", "h": h, "g": g, "to": rng.randrange(NG), "how": rng.choice(["copy", "copy.copy"])})
         elif r < 0.80:
-            mode = rng.choice(["same", "equal-copy", "one-different", "all-different", "units-exact", "units-different", "incompatible", "extra-key", "asis"])
+            mode = rng.choice(["same", "equal-copy", "reordered", "reordered", "one-different", "all-different", "units-exact", "units-different", "incompatible", "extra-key", "asis"])
             ops.append({"op": "eq", "h": h, "g": g, "g2": rng.randrange(NG), "mode": mode, "pick": rng.randrange(8)})
         elif r < 0.86:
             ops.append({"op": "ds_set", "h": h, "d": rng.randrange(ND), "name": rng.choice(["mesh", "part", "x"]),
@@ -382,6 +382,11 @@ def execute(case, stats):
                             del specs[pk]
                         else:
                             specs[extra] = _copy.deepcopy(specs[pk])
+                    if mode == "reordered":
+                        # same keys, same contents, another insertion order: equality is by content
+                        specs = {kk: specs[kk] for kk in reversed(list(specs))}
+                        if len(specs) > 1:
+                            stats.inc("probe.eq_same_content_other_key_order")
                     mB = {kk: (None, s) for kk, s in specs.items()}
                     if mode == "same":
                         B, mB = A, mA
